@@ -308,6 +308,7 @@ func (s *Sim) answer(r *Req, outcome string) {
 				if outcome == "err:system.notFound" || outcome == "noresp" {
 					v.announce(&StreamEv{Kind: "delete", Derived: true, Via: r, EmitStep: s.Step, EmitCut: s.Cut}, true)
 					s.sawDerived[v] = true
+					s.deletedByRefetch[v] = true
 				} else {
 					// the gateway cannot learn what the query event changed
 					s.refetchFailed[v] = true
